@@ -23,7 +23,70 @@ def _load_variants(prop):
     return list(mod.V)
 
 
+def _apply_patch(variant, root):
+    """a seeded change (unified diff) applied to copies of the files it touches -> overlay"""
+    import re
+    import shutil
+    import subprocess
+    import tempfile
+    pfile = os.path.join(report.VERIF, variant["patch"])
+    try:
+        text = open(pfile).read()
+    except OSError:
+        return None, "patch file missing"
+    rels = sorted(set(re.findall(r"^\+\+\+ b/(\S+)", text, flags=re.M)))
+    tmp = tempfile.mkdtemp(prefix="vst-", dir="/dev/shm" if os.path.isdir("/dev/shm") else None)
+    try:
+        for rel in rels:
+            dst = os.path.join(tmp, rel)
+            os.makedirs(os.path.dirname(dst), exist_ok=True)
+            src = os.path.join(root, rel)
+            if os.path.exists(src):
+                shutil.copy(src, dst)
+        r = subprocess.run(["patch", "-p1", "-s", "-f", "-d", tmp, "-i", pfile], stdout=subprocess.PIPE, stderr=subprocess.STDOUT, text=True)
+        if r.returncode != 0:
+            return None, "patch does not apply to the tree under test"
+        overlay = {}
+        for rel in rels:
+            with open(os.path.join(tmp, rel), encoding="utf-8", errors="replace") as fh:
+                overlay[rel] = fh.read()
+            try:
+                compile(overlay[rel], rel, "exec")
+            except SyntaxError as e:
+                return None, "variant does not compile: %s" % e
+        return overlay, None
+    finally:
+        shutil.rmtree(tmp, ignore_errors=True)
+
+
+def seeded_variants(prop):
+    """the kept seeded changes of this property that its check reports, as must-fire variants (the rules recorded in their
+    meta.json): the thorough tier re-establishes the catch matrix of DESIGN.md section 6 on every run"""
+    import json
+    base = os.path.join(report.VERIF, "seeded")
+    out = []
+    if not os.path.isdir(base):
+        return out
+    for sid in sorted(os.listdir(base)):
+        mp = os.path.join(base, sid, "meta.json")
+        if not os.path.exists(mp):
+            continue
+        try:
+            meta = json.load(open(mp))
+        except ValueError:
+            continue
+        if meta.get("property") != prop:
+            continue
+        f = (meta.get("checks") or {}).get("fired", {}).get(prop)
+        if not f or f.get("exit") != 1 or not f.get("rules"):
+            continue
+        out.append({"id": "seeded-" + sid, "patch": os.path.join("seeded", sid, "patch.diff"), "expect": list(f["rules"])})
+    return out
+
+
 def _apply(variant, root):
+    if "patch" in variant:
+        return _apply_patch(variant, root)
     edits = variant.get("edits") or [(variant["file"], variant["old"], variant["new"])]
     overlay = {}
     for ed in edits:
@@ -83,7 +146,7 @@ def _one(args):
 def run(prop, root=None, jobs=None):
     from .runner import analyse
     root = root or REPO
-    variants = _load_variants(prop)
+    variants = _load_variants(prop) + seeded_variants(prop)
     base = analyse(prop, "quick", root)
     base_v, base_u = _keys(base, report.VIOLATION), _keys(base, report.UNDECIDED)
     jobs = jobs or min(16, os.cpu_count() or 1)
